@@ -73,6 +73,7 @@ fn main() {
                 Some("containers") => world_engine::Profile::Containers,
                 Some("tracker") => world_engine::Profile::Tracker,
                 Some("serde") => world_engine::Profile::Serde,
+                Some("capacity") => world_engine::Profile::Capacity,
                 _ => world_engine::Profile::Mixed,
             };
             let out = arg(&args, "--out").expect("--out DIR");
